@@ -82,3 +82,20 @@ impl<T, U: VTryFrom<T>> VTryInto<U> for T {
 pub assume_specification<T, E, U, F: FnOnce(T) -> U> [Result::<T,E>::map_or](r: Result<T,E>, default: U, f: F) -> (out: U)
     requires r is Ok ==> f.requires((r->Ok_0,)),
     ensures r is Ok ==> f.ensures((r->Ok_0,), out), r is Err ==> out == default;
+
+// ---- T3 / R7: iterator-adapter expressions are wrapped in functions whose body IS the replaced
+// expression; their contracts (stated over the closure's own requires/ensures) are assumed.
+#[verifier::external_body]
+pub fn verif_iter_all<T, F: Fn(&T) -> bool>(s: &[T], f: F) -> (r: bool)
+    requires forall|i: int| 0 <= i < s@.len() ==> f.requires((&s[i],)),
+    ensures
+        r ==> forall|i: int| 0 <= i < s@.len() ==> f.ensures((&s[i],), true),
+        !r ==> exists|i: int| 0 <= i < s@.len() && f.ensures((&s[i],), false),
+{ s.iter().all(f) }
+#[verifier::external_body]
+pub fn verif_array_iter_all<T, const M: usize, F: Fn(&T) -> bool>(s: &[T; M], f: F) -> (r: bool)
+    requires forall|i: int| 0 <= i < M ==> f.requires((&s[i],)),
+    ensures
+        r ==> forall|i: int| 0 <= i < M ==> f.ensures((&s[i],), true),
+        !r ==> exists|i: int| 0 <= i < M && f.ensures((&s[i],), false),
+{ s.iter().all(f) }
